@@ -19,21 +19,32 @@ use std::rc::Rc;
 /// start / end values giving start < end, start = end and start > end in both call orders.
 pub fn alphabet() -> Vec<BOp> {
     vec![
+        // tolerance: valid small, valid large, zero, negative zero, negative
         BOp::Tol(1e-3),
+        BOp::Tol(2.0),
         BOp::Tol(0.0),
         BOp::Tol(-0.0),
         BOp::Tol(-1e-3),
+        // maximum step: small, medium, longer than any interval below, zero, negative zero, negative
         BOp::Max(0.05),
         BOp::Max(0.5),
+        BOp::Max(4.0),
         BOp::Max(0.0),
+        BOp::Max(-0.0),
         BOp::Max(-0.5),
+        // minimum step: small, above the small maximum, longer than any interval, zero, -0, negative
         BOp::Min(1e-3),
         BOp::Min(0.2),
+        BOp::Min(4.0),
+        BOp::Min(0.0),
         BOp::Min(-0.0),
         BOp::Min(-1e-3),
+        // start / end: start < end, start = end (also as -0.0 / +0.0), start > end, both call orders
         BOp::Start(0.0),
+        BOp::Start(-0.0),
         BOp::Start(1.0),
         BOp::Start(2.0),
+        BOp::End(0.0),
         BOp::End(1.0),
         BOp::End(3.0),
         BOp::IcSlice,
@@ -304,9 +315,15 @@ pub fn bexh_units(alphabet_len: usize) -> Vec<(Kind, DimMode, Field, BOp, Option
                     v.push((kind, dim, field, good, Some(f)));
                 }
                 v.push((kind, dim, field, good, None));
-                // the mismatching constructor (B1)
-                let bad = if dim.dynamic { BOp::New } else { BOp::NewDyn(dim.n) };
-                v.push((kind, dim, field, bad, None));
+                // the mismatching constructor (B1); for a static dimension every run-time
+                // size is misuse, whether or not it happens to equal the static one
+                if dim.dynamic {
+                    v.push((kind, dim, field, BOp::New, None));
+                } else {
+                    for k in [dim.n, dim.n + 1, 0, 1] {
+                        v.push((kind, dim, field, BOp::NewDyn(k), None));
+                    }
+                }
             }
         }
     }
@@ -368,6 +385,8 @@ fn chain_spec(kind: Kind, dim: DimMode, field: Field, ops: Vec<BOp>, with_solve:
             nested_every: 0,
         }],
         sched_seed: 0,
+        phased: false,
+        solo_baselines: true,
     }
 }
 
